@@ -4,6 +4,7 @@ import (
 	"fmt"
 	"os"
 	"path/filepath"
+	"strings"
 	"sync"
 
 	"verif/ev"
@@ -81,31 +82,48 @@ func init() {
 			texts[i] = m.Text
 		}
 		var mu sync.Mutex
-		sw.run(texts, []string{"-a"}, false, false, func(o *GenOut) {
-			m := muts[o.Idx]
-			mu.Lock()
-			defer mu.Unlock()
-			r.Add("evaluations", 1)
-			r.Add("mutants_"+m.M.Kind, 1)
-			r.Add("class_"+m.Class, 1)
-			if m.Class == "wellformed" {
-				return
+		// every mutant without flags of its own and with -no_lexer (checks that only happen as a side effect of
+		// building the lexer must not be lost); the symbol-level mutants also with -zip and -v
+		for _, flags := range [][]string{{"-a"}, {"-a", "-no_lexer"}, {"-a", "-zip", "-v"}} {
+			flags := flags
+			subset := muts
+			subTexts := texts
+			if len(flags) == 3 {
+				subset, subTexts = nil, nil
+				for i, m := range muts {
+					if m.Class == "symbols" || i%9 == 0 {
+						subset = append(subset, m)
+						subTexts = append(subTexts, texts[i])
+					}
+				}
 			}
-			if o.Res.Exit == 0 && !o.Res.Hang {
-				r.Add("accepted_illformed", 1)
-				r.Violate("c14", m.Seed+"/"+m.M.Desc, fmt.Sprintf("seed %s, %s: %s, yet gocc exits with status 0\n  text: %s", m.Seed, m.M.Desc, m.Why, oneLine(m.Text)),
-					map[string]any{"seed": m.Seed, "mutation": m.M.Desc, "text": m.Text, "why": m.Why, "stdout": o.Res.Stdout, "stderr": o.Res.Stderr})
-				return
-			}
-			r.Add("rejected_illformed", 1)
-			r.Distinct(m.Seed + "/" + m.M.Desc)
-			if o.Idx%1501 == 11 {
-				r.Sample(map[string]any{"seed": m.Seed, "mutation": m.M.Desc, "class": m.Class, "why": m.Why, "exit": o.Res.Exit, "message": oneLine(o.Res.Stdout)})
-			}
-		})
+			sw.run(subTexts, flags, false, false, func(o *GenOut) {
+				m := subset[o.Idx]
+				fl := strings.Join(flags[1:], " ")
+				mu.Lock()
+				defer mu.Unlock()
+				r.Add("evaluations", 1)
+				r.Add("mutants_"+m.M.Kind, 1)
+				r.Add("class_"+m.Class, 1)
+				if m.Class == "wellformed" {
+					return
+				}
+				if o.Res.Exit == 0 && !o.Res.Hang {
+					r.Add("accepted_illformed", 1)
+					r.Violate("c14", m.Seed+"/"+m.M.Desc+" "+fl, fmt.Sprintf("seed %s, %s, flags [%s]: %s, yet gocc exits with status 0\n  text: %s", m.Seed, m.M.Desc, fl, m.Why, oneLine(m.Text)),
+						map[string]any{"seed": m.Seed, "mutation": m.M.Desc, "flags": flags, "text": m.Text, "why": m.Why, "stdout": o.Res.Stdout, "stderr": o.Res.Stderr})
+					return
+				}
+				r.Add("rejected_illformed", 1)
+				r.Distinct(m.Seed + "/" + m.M.Desc + " " + fl)
+				if o.Idx%1501 == 11 {
+					r.Sample(map[string]any{"seed": m.Seed, "mutation": m.M.Desc, "flags": fl, "class": m.Class, "why": m.Why, "exit": o.Res.Exit, "message": oneLine(o.Res.Stdout)})
+				}
+			})
+		}
 		sw.checkCross()
 		r.Set("cli_cross_checked", sw.pool.CrossChecked.Load())
-		r.Set("rule", "per seed grammar: every single token deleted, every token replaced by a representative of each other front-end token kind, every kind inserted at every gap, every use of a production / regular-definition name renamed to an undefined one, every lexical definition duplicated; ill-formedness is decided by the harness (Earley over spec/gocc2.ebnf read by an independent reader for the token level; three symbol-table rules); every ill-formed mutant must make the real generator exit non-zero; distinct = ill-formed mutants rejected")
+		r.Set("rule", "per seed grammar: every single token deleted, every token replaced by a representative of each other front-end token kind, every kind inserted at every gap, every use of a production / regular-definition name renamed to an undefined one, every lexical definition duplicated; ill-formedness is decided by the harness (Earley over spec/gocc2.ebnf read by an independent reader for the token level; three symbol-table rules); every ill-formed mutant must make the real generator exit non-zero, without flags, with -no_lexer, and (symbol-level mutants plus every ninth other) with -zip -v; distinct = ill-formed mutants rejected")
 		r.Assumption("one-directional: mutants the oracle calls well-formed are not judged here (C09 takes them)")
 		return r.Finish(nil)
 	}
